@@ -1,4 +1,297 @@
-/- C19 — model and specification (stub; see HACKING.md) -/
+/-
+  C19 — "a refinement run never loses the user's model, whatever SHELXL does".
+
+  MODEL: the protocol of `Shelxfile.refine` (shelx.py) and `ShelxlRefine` (refine/refine.py) as a state machine
+  over an abstract atomic file system.  Everything the protocol does not look into is abstract:
+
+    * `B`  — file contents (bytes).  The protocol only copies them, asks for their size and hands them to the parser.
+    * `R`  — everything of the in-memory object except ACTA and the L.S./CGLS cycle number.
+    * `Codec B R` — `text` (write_shelx_file of an object whose delete_on_write bookkeeping is intact),
+      `garbled` (write_shelx_file of an object whose delete_on_write indices are off by one line, see `Mem.skew`),
+      `parse` (read_file: document + "some delete_on_write index lies behind UNIT"), `size` (st_size).
+      No assumption on any of the four is needed by the theorems.
+    * the external program is a value `Outcome B`: exit status, what it did to <name>.res, what kind of <name>.lst it left.
+
+  `Fix` switches between the code as it was found (`Fix.none`) and the repaired code (`Fix.all`, fixes/C19_*.patch);
+  the model of the tree under test is `refine Fix.all`.  The original behaviour is kept for the witness theorems.
+
+  SPEC: `specStep` — the statement of the property for one call, written from the property text only
+  (restore on failure, reload + ACTA after UNIT on success, .ins = model − ACTA with the requested cycles,
+  no content in .res that is neither the pre-run file nor what SHELXL left).
+-/
 namespace Shelx.C19
+
+/-- exception classes that can leave `refine()` -/
+inductive PyErr
+  | SystemExit | FileNotFoundError | IndexError
+  deriving DecidableEq, Repr
+
+/-- an ACTA card: its text (an id) and its line offset from UNIT (`index(acta) - index(unit)`) -/
+structure Acta where
+  text : Nat
+  off  : Int
+  deriving DecidableEq, Repr
+
+/-- the document: what the user's model says -/
+structure Doc (R : Type) where
+  acta   : Option Acta
+  cycles : Int
+  rest   : R
+  deriving DecidableEq, Repr
+
+/-- the in-memory object: the document plus the bookkeeping `write_shelx_file` depends on.
+    `dow`  — some `delete_on_write` index lies behind the UNIT line (second FVAR line, …);
+    `skew` — (position of those lines) − (index recorded for them): 0 after parsing, −1 after `del _reslist[acta]`,
+             +1 after `_reslist.insert(unit.index + 1, …)`. -/
+structure Mem (R : Type) where
+  doc  : Doc R
+  dow  : Bool
+  skew : Int
+  deriving DecidableEq, Repr
+
+structure FS (B : Type) where
+  res   : Option B        -- <name>.res
+  ins   : Option B        -- <name>.ins
+  bak   : Option B        -- <name>.shx-bak
+  hkl   : Bool            -- <name>.hkl exists
+  saves : List B          -- shxsaves/<name>_<timestamp>.res, newest first
+  deriving DecidableEq, Repr
+
+structure St (B R : Type) where
+  fs  : FS B
+  mem : Mem R
+  deriving DecidableEq, Repr
+
+structure Codec (B R : Type) where
+  text    : Doc R → B
+  garbled : Doc R → B
+  parse   : B → Doc R × Bool
+  size    : B → Nat
+
+/-- what the external program did to <name>.res -/
+inductive ResOut (B : Type)
+  | wrote (b : B) | removed | untouched
+  deriving DecidableEq, Repr
+
+/-- the <name>.lst it left, by what `check_refinement_results` does with it:
+    `raises` = malformed so that the diagnostics raise (IndexError), `quiet` = malformed but swallowed -/
+inductive LstOut
+  | good | missing | raises | quiet
+  deriving DecidableEq, Repr
+
+structure Outcome (B : Type) where
+  exit : Int
+  res  : ResOut B
+  lst  : LstOut
+  deriving DecidableEq, Repr
+
+/-- one `refine(cycles, backup_before)` call together with what SHELXL will do in it -/
+structure Call (B : Type) where
+  cycles : Option Int
+  backup : Bool
+  out    : Outcome B
+  deriving DecidableEq, Repr
+
+structure Result (B R : Type) where
+  st  : St B R
+  exc : Option PyErr      -- `none` = `refine()` returned True
+  deriving DecidableEq, Repr
+
+/-- which repairs are present in the code that is modelled -/
+structure Fix where
+  stat  : Bool   -- C19_1: a missing .res counts as failure (no bare `os.stat` on it)
+  lst   : Bool   -- C19_2: the .lst diagnostics cannot abort the protocol
+  stale : Bool   -- C19_3: restore only from a backup taken in this run
+  acta  : Bool   -- C19_4: a run that does not complete gives the in-memory model its ACTA back
+  deriving DecidableEq, Repr
+
+def Fix.all : Fix := ⟨true, true, true, true⟩
+def Fix.none : Fix := ⟨false, false, false, false⟩
+
+variable {B R : Type}
+
+/-! ### model -/
+
+/-- `write_shelx_file`: lines whose index is in `delete_on_write` are skipped — the right ones only if `skew = 0` -/
+def write (c : Codec B R) (m : Mem R) : B :=
+  if m.dow && m.skew != 0 then c.garbled m.doc else c.text m.doc
+
+/-- `ShelxlRefine.remove_acta_card`: `del _reslist[index_of(acta)]`, `shx.acta = None`; the text is kept -/
+def removeActa (m : Mem R) : Mem R × Option Acta :=
+  match m.doc.acta with
+  | none => (m, none)
+  | some a => ({ m with doc := { m.doc with acta := none }, skew := m.skew - 1 }, some a)
+
+/-- `ShelxlRefine.restore_acta_card`: insert at `unit.index + 1` -/
+def restoreActa (saved : Option Acta) (m : Mem R) : Mem R :=
+  match saved with
+  | none => m
+  | some a => { m with doc := { m.doc with acta := some { a with off := 1 } }, skew := m.skew + 1 }
+
+/-- content of <name>.res when the program has ended -/
+def left (pre : Option B) : ResOut B → Option B
+  | .wrote b => some b
+  | .removed => none
+  | .untouched => pre
+
+/-- `backup_shx_file` (only with `backup_before`): `copyfile` of a missing file → `sys.exit()` (`none`) -/
+def backupStep (backup : Bool) (fs : FS B) : Option (FS B) :=
+  if backup then
+    match fs.res with
+    | none => none
+    | some r => some { fs with bak := some r, saves := r :: fs.saves }
+  else some fs
+
+/-- `restore_shx_file`: copy <name>.shx-bak over <name>.res (IOError printed if there is none), delete it -/
+def restoreStep (f : Fix) (backup : Bool) (fs : FS B) : FS B :=
+  if f.stale && !backup then fs
+  else match fs.bak with
+    | none => fs
+    | some k => { fs with res := some k, bak := none }
+
+/-- `ShelxlRefine.run_shelxl` -/
+def runShelxl (f : Fix) (c : Codec B R) (fs : FS B) (call : Call B) : FS B × Option PyErr :=
+  if !fs.hkl then (fs, some .SystemExit)                       -- 'You need a proper hkl file' / sys.exit()
+  else match backupStep call.backup fs with
+    | none => (fs, some .SystemExit)                           -- 'Unable to make backup file' / sys.exit()
+    | some fs1 =>
+      let fs2 := { fs1 with res := left fs1.res call.out.res } -- the external program runs
+      if call.out.lst == .raises && !f.lst then (fs2, some .IndexError)   -- check_refinement_results
+      else match fs2.res with
+        | none =>
+          if f.stat then (restoreStep f call.backup fs2, some .SystemExit)
+          else (fs2, some .FileNotFoundError)                  -- os.stat(resfile)
+        | some b =>
+          if call.out.exit != 0 || c.size b < 10 then (restoreStep f call.backup fs2, some .SystemExit)
+          else (fs2, none)
+
+/-- `self.cycles.number = cycles` when a number is given -/
+def setCycles (n : Option Int) (m : Mem R) : Mem R :=
+  match n with
+  | some n => { m with doc := { m.doc with cycles := n } }
+  | none => m
+
+/-- what follows `run_shelxl` in `Shelxfile.refine`: an exception passes through (the repaired code puts ACTA back
+    first); otherwise `reload()` and `restore_acta_card()` -/
+def finish (f : Fix) (c : Codec B R) (saved : Option Acta) (m1 : Mem R) : FS B × Option PyErr → Result B R
+  | (fs2, some e) => ⟨⟨fs2, if f.acta then restoreActa saved m1 else m1⟩, some e⟩
+  | (fs2, none) =>
+    match fs2.res with
+    | none => ⟨⟨fs2, m1⟩, some .FileNotFoundError⟩             -- reload() of a missing file (not reachable)
+    | some b => ⟨⟨fs2, restoreActa saved ⟨(c.parse b).1, (c.parse b).2, 0⟩⟩, none⟩
+
+/-- `Shelxfile.refine`: set cycles, drop ACTA, write .ins, run, reload, restore ACTA -/
+def refine (f : Fix) (c : Codec B R) (st : St B R) (call : Call B) : Result B R :=
+  let m1 := (removeActa (setCycles call.cycles st.mem)).1
+  let saved := (removeActa (setCycles call.cycles st.mem)).2
+  finish f c saved m1 (runShelxl f c { st.fs with ins := some (write c m1) } call)
+
+/-- repeated calls; the caller survives the exceptions (they are ordinary Python exceptions / SystemExit) -/
+def trace (f : Fix) (c : Codec B R) : St B R → List (Call B) → List (Call B × Result B R)
+  | _, [] => []
+  | st, call :: t => (call, refine f c st call) :: trace f c (refine f c st call).st t
+
+def run (f : Fix) (c : Codec B R) : St B R → List (Call B) → St B R
+  | st, [] => st
+  | st, call :: t => run f c (refine f c st call).st t
+
+/-! ### specification (from the property text, not from the code) -/
+
+/-- the external run failed: non-zero exit status, or an empty or missing result file -/
+def failed (c : Codec B R) (pre : Option B) (o : Outcome B) : Bool :=
+  o.exit != 0 ||
+  match left pre o.res with
+  | none => true
+  | some b => c.size b == 0
+
+/-- SHELXL is started at all: reflections are there, and the backup that was asked for could be taken -/
+def started (st : St B R) (call : Call B) : Bool :=
+  st.fs.hkl && (!call.backup || st.fs.res.isSome)
+
+/-- the document SHELXL has to be given -/
+def insDoc (st : St B R) (call : Call B) : Doc R :=
+  { acta := none
+    cycles := match call.cycles with | some n => n | none => st.mem.doc.cycles
+    rest := st.mem.doc.rest }
+
+/-- the document after a successful run: what the result file says, ACTA of the user directly after UNIT -/
+def reloaded (c : Codec B R) (st : St B R) (b : B) : Doc R :=
+  match st.mem.doc.acta with
+  | none => (c.parse b).1
+  | some a => { (c.parse b).1 with acta := some { text := a.text, off := 1 } }
+
+/-- .ins = the current model without ACTA and with the requested number of cycles -/
+def specIns (c : Codec B R) [DecidableEq B] (st : St B R) (call : Call B) (r : Result B R) : Bool :=
+  r.st.fs.ins == some (c.text (insDoc st call))
+
+/-- <name>.res afterwards -/
+def specRes (c : Codec B R) [DecidableEq B] (st : St B R) (call : Call B) (r : Result B R) : Bool :=
+  if !started st call then r.st.fs.res == st.fs.res
+  else if failed c st.fs.res call.out then
+    if call.backup then r.st.fs.res == st.fs.res                                   -- restored byte-identically
+    else r.st.fs.res == st.fs.res || r.st.fs.res == left st.fs.res call.out.res    -- nothing stale
+  else r.st.fs.res == left st.fs.res call.out.res
+
+/-- the backup taken before the run: kept in shxsaves/, and still beside the result after a good run -/
+def specBak [DecidableEq B] (c : Codec B R) (st : St B R) (call : Call B) (r : Result B R) : Bool :=
+  if started st call && call.backup then
+    (match st.fs.res, r.st.fs.saves with
+     | some b, s :: _ => s == b
+     | _, _ => false) &&
+    (failed c st.fs.res call.out || r.st.fs.bak == st.fs.res)
+  else true
+
+/-- the in-memory model afterwards, and how the call ended -/
+def specMem (c : Codec B R) [DecidableEq R] (st : St B R) (call : Call B) (r : Result B R) : Bool :=
+  if started st call && !failed c st.fs.res call.out then
+    r.exc.isNone &&
+    (match left st.fs.res call.out.res with
+     | some b => r.st.mem.doc == reloaded c st b
+     | none => false)
+  else
+    r.exc.isSome && r.st.mem.doc.rest == st.mem.doc.rest &&
+    r.st.mem.doc.acta.isSome == st.mem.doc.acta.isSome &&
+    (match st.mem.doc.acta, r.st.mem.doc.acta with
+     | some a, some a' => a.text == a'.text
+     | _, _ => true)
+
+def specStep (c : Codec B R) [DecidableEq B] [DecidableEq R] (st : St B R) (call : Call B) (r : Result B R) : Bool :=
+  specIns c st call r && specRes c st call r && specBak c st call r && specMem c st call r
+
+def traceSpec (c : Codec B R) [DecidableEq B] [DecidableEq R] : St B R → List (Call B × Result B R) → Bool
+  | _, [] => true
+  | st, (call, r) :: t => specStep c st call r && traceSpec c r.st t
+
+/-- the result file the user ends up with when every call takes a backup:
+    the one of the last successful run, or the initial one -/
+def lastGood (c : Codec B R) (r0 : Option B) : List (Call B) → Option B
+  | [] => r0
+  | call :: t => lastGood c (if failed c r0 call.out then r0 else left r0 call.out.res) t
+
+/-! ### domain predicates (hypotheses of the theorems, all decidable) -/
+
+/-- result files are empty or real: the code calls a .res of fewer than 10 bytes a failure, the property says
+    "empty"; 1–9 bytes are neither an empty nor a usable SHELXL file -/
+def plausible (c : Codec B R) (pre : Option B) (o : Outcome B) : Bool :=
+  match left pre o.res with
+  | none => true
+  | some b => c.size b == 0 || 10 ≤ c.size b
+
+/-- the object's `delete_on_write` bookkeeping fits its lines once ACTA is taken out -/
+def inSync (m : Mem R) : Bool :=
+  !m.dow || m.skew == (if m.doc.acta.isSome then 1 else 0)
+
+/-- the file SHELXL leaves does not have both an ACTA line and `delete_on_write` lines behind UNIT
+    (a freshly parsed file of that kind is not `inSync`: known finding, overlaps C04) -/
+def calm (c : Codec B R) (pre : Option B) (o : Outcome B) : Bool :=
+  match left pre o.res with
+  | none => true
+  | some b => (c.parse b).1.acta.isNone || !(c.parse b).2
+
+/-- hypotheses on a whole history, evaluated along the run -/
+def history (c : Codec B R) : St B R → List (Call B) → Bool
+  | _, [] => true
+  | st, call :: t =>
+    plausible c st.fs.res call.out && calm c st.fs.res call.out && history c (refine Fix.all c st call).st t
 
 end Shelx.C19
